@@ -502,7 +502,7 @@ theorem charSeg_nlAlone : charSeg.NlAlone := by
   cases t <;> simp [charSeg, Segmenter.ofGroup, group, groupGo]
 
 /-- the concrete UAX #29 segmenter keeps the line break alone (GB4) as soon as the class table calls it LF -/
-theorem uaxSeg_nlAlone (cls : Char → String) (h : cls '\n' = "LF") : (uaxSeg cls).NlAlone := by
+theorem uaxSeg_nlAlone (cls : Char → String) (h : gcbBase (cls '\n') = "LF") : (uaxSeg cls).NlAlone := by
   intro t
   cases t with
   | nil => simp [uaxSeg, Segmenter.ofGroup, group, groupGo]
